@@ -38,6 +38,53 @@ def assert_leaves(sl):
     return leaves
 
 
+def dup_rule(ctx: Ctx, cname: str, sl):
+    """C06.i 'every customer at most once' for tours with optional customers: over the ascending sort S of the actions,
+    all((S[1:] == 0) | (S[1:] > S[:-1])) -- repeated entries are allowed only for the depot index 0."""
+    def sort_of(x):
+        x = nf.strip(x)
+        if x.op == "sub" and x.args[1].op == "tuple":
+            comps = x.args[1].args
+            last = comps[-1] if comps else None
+            base = nf.strip(x.args[0])
+            if base.op == "sub" and vg.is_const(base.args[1], 0) and nf.strip(base.args[0]).op == "meth" and nf.strip(base.args[0]).args[1] == "sort":
+                srt = nf.strip(base.args[0])
+                desc = [k.args[1] for k in srt.args[2:] if isinstance(k, vg.S) and k.op == "kw" and k.args[0] == "descending"]
+                asc = not desc or vg.is_const(desc[0], False)
+                on_actions = "actions" in vg.params_of(srt.args[0])
+                if last is not None and last.op == "slice" and asc and on_actions and all(c_.op in ("slice", "ellipsis") and (c_.op == "ellipsis" or all(vg.is_none(y) for y in c_.args)) for c_ in comps[:-1]):
+                    lo, hi, st = last.args
+                    if vg.is_const(lo, 1) and vg.is_none(hi) and vg.is_none(st):
+                        return "tail", srt
+                    if vg.is_none(lo) and vg.is_const(hi, -1) and vg.is_none(st):
+                        return "head", srt
+        return None, None
+    ok, why = False, "no assert of the form all((S[1:] == 0) | (S[1:] > S[:-1])) over the sorted actions"
+    for e in sl.events("assert"):
+        c = e.data
+        if not (c.op == "meth" and c.args[1] == "all" and len(c.args) == 2 and nf.strip(c.args[0]).op in ("|", "or")):
+            continue
+        alts = list(nf.strip(c.args[0]).args)
+        if len(alts) != 2:
+            continue
+        zero = [a for a in alts if a.op == "==" and any(vg.is_const(x, 0) for x in a.args)]
+        incr = [a for a in alts if nf._cmp_raw(a) is not None and nf._cmp_raw(a)[1] in (">", "<")]
+        if len(zero) != 1 or len(incr) != 1:
+            continue
+        zside = [x for x in zero[0].args if not vg.is_const(x, 0)]
+        kz, sz = sort_of(zside[0]) if zside else (None, None)
+        lhs, op, rhs = nf._cmp_raw(incr[0])
+        if op == "<":
+            lhs, rhs = rhs, lhs
+        kl, s1 = sort_of(lhs)
+        kr, s2 = sort_of(rhs)
+        ok = kz == "tail" and kl == "tail" and kr == "head" and s1 is s2 and sz is s1 and not e.conds
+        why = f"repeats allowed only for the depot: zero alternative on S[1:]: {kz == 'tail'}; strict increase S[1:] > S[:-1] of one ascending sort of the actions: {kl == 'tail' and kr == 'head' and s1 is s2}"
+        if ok:
+            break
+    ctx.ob("C06.i", f"{cname}.checker:at-most-once", ok, sl.where, why, construct=f"{cname}.check_solution_validity:at-most-once")
+
+
 def run(ctx: Ctx):
     for cname, (path, family) in T.CHECK_ENVS.items():
         env = EnvA(ctx.repo, path, cname)
@@ -54,6 +101,8 @@ def run(ctx: Ctx):
         leaves = assert_leaves(sl)
         if not leaves:
             raise AnalysisError(f"{cname}.check_solution_validity: no assert found")
+        if cname in ("OPEnv", "PCTSPEnv", "SPCTSPEnv"):
+            dup_rule(ctx, cname, sl)
         if cname == "MTVRPEnv":
             # C06.h: the checker's clock advances by travel TIME (distance / speed); route lengths are distances
             from .. import units
